@@ -159,13 +159,11 @@ func ruleBlobRemovalGuards(c *Ctx, rule string) {
 				case "PruneDirectory":
 					ok := false
 					for _, a := range g.AtomsAt(h.Loc) {
-						if be, isB := ast.Unparen(a.Expr).(*ast.BinaryExpr); isB && be.Op == token.GTR && !a.Val {
-							if _, isLen := isLenOf(info, be.X); isLen {
-								ok = true
-							}
+						if lenIsZeroAtom(info, a.Expr, a.Val) {
+							ok = true
 						}
 					}
-					c.Check(rule, ff.Key()+" only empty directories are removed", c.Pos(h.Node), ok, "PruneDirectory may remove a path only on the false edge of len(entries) > 0")
+					c.Check(rule, ff.Key()+" only empty directories are removed", c.Pos(h.Node), ok, "PruneDirectory may remove a path only on an edge that establishes len(entries) == 0")
 				case "NewLayer", "quantizeLayer", "convertFromSafetensors":
 					// argument derives from CreateTemp/MkdirTemp result
 					arg := h.Node.(*ast.CallExpr).Args[0]
